@@ -1,3 +1,40 @@
 import Ptk.Proto
--- stub: the C03 model driver has not been written yet
-def main : IO Unit := Ptk.Proto.run fun _ => "bad-op"
+import Ptk.Model.C03
+open Ptk Ptk.Py Ptk.Proto Ptk.C03
+
+def cfg : Cfg := genCfg
+
+def encKey (k : String) : String := encStr k.toList
+
+/-- `<n> key data key data … | inPaste paste prefix` ; the callback buffer is emptied after
+    every op, like `Vt100Input._buffer`. -/
+def reply (s : St) : St × String :=
+  let (s', out) := takeOut s
+  let ks := out.foldl (fun acc p => acc ++ " " ++ encKey p.key ++ " " ++ encStr p.data) ""
+  (s', s!"{out.length}{ks} | {encBool s.inPaste} {encStr s.paste} {encStr s.pre}")
+
+def pred (f : Text → Bool) (tok : String) : String :=
+  match decStr tok with
+  | some t => encBool (f t)
+  | none => "bad-op"
+
+def stepLine (s : St) (toks : List String) : St × String :=
+  match toks with
+  | ["reset"] => (St.init, "ok")
+  | ["feed", d] =>
+    match decStr d with
+    | some d => reply (feed cfg s d)
+    | none => (s, "bad-op")
+  | ["flush"] => reply (flush cfg s)
+  | ["cpr", t] => (s, pred (isCpr cfg.isDigit) t)
+  | ["mouse", t] => (s, pred (isMouse cfg.isDigit) t)
+  | ["cprp", t] => (s, pred (isCprPrefix cfg.isDigit) t)
+  | ["mousep", t] => (s, pred (isMousePrefix cfg.isDigit) t)
+  | ["pfx", t] => (s, pred (isPrefixOfLonger cfg) t)
+  | ["match", t] =>
+    match decStr t with
+    | some t => (s, encList encKey (getMatch cfg t))
+    | none => (s, "bad-op")
+  | _ => (s, "bad-op")
+
+def main : IO Unit := runS stepLine St.init
